@@ -743,6 +743,29 @@ def run_history(rnd, steps, t, p_loop=0.0):
         post = pool.heap()
         regs2 = pool.regs_list()
         census2 = pool.census()
+        extra_reads = []
+        if NOVAL in post["kids"][0] or post["child"][0] == NOVAL:
+            # The mutation linked an object lacking `value` where the root's observed properties need it: it raised from
+            # inside the framework - AFTER the link had changed.  The properties are read at once (C12: no read returns a
+            # value cached before the last relevant change, whatever became of the mutation's own outcome); nothing else
+            # is done to the pool in between (its hooks may be partial from here on: the history ends)
+            s2 = s
+            for p in ("csnap", "cfirst", "chv"):
+                s2 += 1
+                rexc = ""
+                hp = pool.heap()
+                try:
+                    ret, runs = pool.read_prop(p)
+                except Exception as ex:
+                    ret, runs, rexc = [], 0, type(ex).__name__
+                start = pool.last_read.get(p)
+                since = [{"pre": a, "m": b} for a, b in (pool.muts[start:] if start is not None else [])]
+                pool.last_read[p] = len(pool.muts)
+                extra_reads.append({"tid": t, "step": s2, "m": {"t": "read", "h": 0, "e": p, "op": "", "x": 1, "a": [0, 0, 0], "xs": [], "ps": []},
+                                    "exc": rexc, "pre": hp, "post": pool.heap(), "regs": regs2, "regs2": regs2, "calls": [[] for _ in calls], "probe": [],
+                                    "xprobe": [], "census0": pool.census0, "census1": census2, "census2": census2, "paths": [], "alive": 0,
+                                    "dropped": len(pool.dropped), "ret": ret, "runs": runs, "since": since, "first": 1 if start is None else 0})
+            pool.clear_logs()
         probe = pool.probe()
         out.append({"tid": t, "step": s, "m": m, "exc": exc, "pre": pre, "post": post, "regs": regs1, "regs2": regs2,
                     "calls": calls, "probe": probe, "xprobe": pool.xprobe_safe(), "census0": pool.census0, "census1": census1, "census2": census2,
@@ -755,26 +778,8 @@ def run_history(rnd, steps, t, p_loop=0.0):
         if m["t"] in LINK_MUTS and on_cycle(pre, m["x"]):
             break               # known finding F8: from here on the code is off-specification
         if NOVAL in post["kids"][0] or post["child"][0] == NOVAL:
-            # the root's observed properties require `value` there: inapplicable from here on.  The mutation raised from
-            # inside the framework - AFTER the link had changed: the properties are read once more (C12: no read
-            # returns a value cached before the last relevant change, whatever became of the mutation's own outcome)
-            for p in ("csnap", "cfirst", "chv"):
-                s += 1
-                rexc = ""
-                hp = pool.heap()
-                pool.clear_logs()
-                try:
-                    ret, runs = pool.read_prop(p)
-                except Exception as ex:
-                    ret, runs, rexc = [], 0, type(ex).__name__
-                start = pool.last_read.get(p)
-                since = [{"pre": a, "m": b} for a, b in (pool.muts[start:] if start is not None else [])]
-                pool.last_read[p] = len(pool.muts)
-                rl = pool.regs_list()
-                out.append({"tid": t, "step": s, "m": {"t": "read", "h": 0, "e": p, "op": "", "x": 1, "a": [0, 0, 0], "xs": [], "ps": []},
-                            "exc": rexc, "pre": hp, "post": pool.heap(), "regs": rl, "regs2": rl, "calls": pool.calls(), "probe": [],
-                            "xprobe": [], "census0": pool.census0, "census1": census2, "census2": census2, "paths": [], "alive": 0,
-                            "dropped": len(pool.dropped), "ret": ret, "runs": runs, "since": since, "first": 1 if start is None else 0})
+            # the root's observed properties require `value` there: inapplicable from here on
+            out.extend(extra_reads)
             break
         if exc and m["t"] not in ("observe", "unobserve") and exc not in ("IndexError", "ValueError_list", "KeyError"):
             if exc == "ValueError" and m["t"] == "kids" and m["op"] in ("remove", "setslice", "delslice"):
